@@ -628,6 +628,22 @@ Theorem impl_eq_spec (U : mat) (inp : pinput R) m t : length inp = m -> Forall (
 Proof. intros Hm Hn He. unfold impl_amp. rewrite (prep_matrix_eq inp Hn). apply (impl_eq_spec_old U inp m t Hm He). Qed.
 Lemma impl_amps_eq (U : mat) m (inp : pinput R) ts : impl_amps eqb U m inp ts = map (impl_amp eqb U m inp) ts.
 Proof. reflexivity. Qed.
+(* a long-lived simulator: over ANY history of set_circuit / queries, from ANY state whose _upol belongs to the
+   circuit set last (whatever the inner simulator still holds from earlier queries), every query is answered as by
+   a fresh simulator on that circuit: answers do not depend on what was simulated before *)
+Definition upol_of (cur : option pcomp) : option (nat * mat) :=
+  match cur with Some c => Some (pwidth c, cmat (pdouble c)) | None => None end.
+Theorem session_history_independent (h : list (pop R)) : forall (s : psim R) cur,
+  ps_upol s = upol_of cur -> prun eqb s h = pspec eqb cur h.
+Proof. induction h as [|o r IH]; intros s cur Hs. reflexivity.
+  destruct o as [c | inp ts]; cbn [prun pspec pstep fst snd].
+  - f_equal. apply IH. reflexivity.
+  - rewrite Hs. destruct cur as [c|]; cbn [upol_of fresh_answer].
+    + destruct (first_err (prep_states eqb inp)) eqn:E; cbn [fst snd].
+      * f_equal. apply IH. exact Hs.
+      * f_equal. apply IH. reflexivity.
+    + cbn [fst snd]. f_equal. apply IH. exact Hs. Qed.
+
 Theorem convert_vacuum (inp : pinput R) : no_photon inp = true ->
   convert_old eqb inp = ConvNoMatrix (repeat 0%nat (2 * length inp)).
 Proof. intros H. unfold convert_old.
